@@ -432,7 +432,9 @@ class OverrideSpec:
         expect_children(ex, ctx, outcome, [], 'definition-evaluates-nothing')
         if outcome[0] == 'return':
             clos = [e for e in ex.events if e[0] == 'closure']
-            ex.prove('C07:LambdaOp.eval:yields-a-function', ['C07', 'C02'],
+            # a plain function: atomic for copy.deepcopy (C12 stores it as it is, so its free names keep resolving in
+            # the running evaluation's scopes, C10) and checked as the closure LambdaOp.eval.f (C01, C10)
+            ex.prove('C07:LambdaOp.eval:yields-a-function', ['C07', 'C02', 'C10', 'C12', 'C01'],
                      bool(clos) and outcome[1] == L.FunV(clos[0][2]) if clos else False)
 
 
